@@ -144,7 +144,17 @@ class EffectAnalysis:
                 return self.local_taint[q].get(e.id) or self.param_taint[q].get(e.id)
             return self.shared.get(f.module, {}).get(e.id)
         if isinstance(e, ast.Subscript):
-            return self.taint(f, e.value, locals_)
+            t = self.taint(f, e.value, locals_)
+            if t and t.startswith("elements of a copy of "):
+                return t[len("elements of a copy of "):] + " (an element reached through a shallow copy)"  # the copy is fresh, what it holds is not
+            return t
+        if isinstance(e, ast.Dict):
+            # {**T, k: v}: a new dict whose values are T's own value objects (a shallow merge); {k: T[..]} holds the aliasing value itself
+            for k_, v_ in zip(e.keys, e.values):
+                t = self.taint(f, v_, locals_)
+                if t:
+                    return t if (k_ is not None or t.startswith("elements of a copy of ")) else f"elements of a copy of {t}"
+            return None
         if isinstance(e, ast.Starred):
             return self.taint(f, e.value, locals_)
         if isinstance(e, ast.Attribute):
@@ -284,6 +294,16 @@ class EffectAnalysis:
                 ch |= self._assign_taint(f, t, origin)
         elif isinstance(target, ast.Starred):
             ch |= self._assign_taint(f, target.value, origin)
+        elif isinstance(target, ast.Subscript):
+            # X[k] = <shallow copy of shared storage>: the local container X now holds objects that alias it (X itself stays a fresh object)
+            base = target.value
+            while isinstance(base, ast.Subscript):
+                base = base.value
+            # (only for a stored *container* of aliases - a shallow copy or merge; a stored table element is as a rule an immutable str / int / tuple,
+            #  and following those made every label map look like the table it was filled from)
+            if isinstance(base, ast.Name) and base.id in self._local_names(f) and base.id not in self.local_taint[q] and base.id not in f.params and origin.startswith("elements of a copy of "):
+                self.local_taint[q][base.id] = origin
+                ch = True
         elif isinstance(target, ast.Attribute) and isinstance(target.value, ast.Name) and f.cls and f.params and target.value.id == f.params[0] and not f.is_static:
             key = (f"{f.module}.{f.cls}", target.attr)
             if key not in self.field_taint:
